@@ -1,7 +1,7 @@
 """C20: parsers derived with tiny-cli's ArgParse/Subcommand accept exactly their declared grammar, round-trip
 every value assignment under every option order, reject the rest with an error value carrying the relevant
 help text, never panic.
-Oracle: 23 derived shapes compiled into engines/h_cli, each with a hand-written grammar description and
+Oracle: 29 derived shapes compiled into engines/h_cli, each with a hand-written grammar description and
 struct->value conversion; generic renderer + reference reading of an argument list; catch_unwind around every
 parse and every rendering of the error value; native debug and release, Miri on a sample."""
 import json
@@ -95,7 +95,7 @@ def run(ck, replay=None):
     elif warm["rc"] != 0:
         ck.note_inconclusive("miri build/run failed: %s" % warm["err"][-400:])
     ck.exhaustive = False
-    ck.extra["shapes"] = 23
+    ck.extra["shapes"] = 29
     ck.extra["alignment_sweep"] = "ASCII pad 0..=4 (letters and dashes) x 2/3/4-byte and mixed fillers x total 80..=160 bytes"
     ck.extra["all_orders_up_to_units"] = 5
     ck.assume("declared grammar: an argument equal to an option literal of the current level is that option, the "
@@ -109,7 +109,7 @@ def run(ck, replay=None):
               "Display = help + cause; agreement on the cause class is reported in counters only, because a line may "
               "carry several defects. A help request met first must display exactly the help text of its level")
     ck.assume("argument vectors contain no interior NUL (they cannot, coming from argv)")
-    return ("23 derived parsers (required/optional/repeated options, aliases, flags, required and optional positionals, "
+    return ("29 derived parsers (incl. fields that claim the built-in -h / --help spellings, in structs with and without a command; required/optional/repeated options, aliases, flags, required and optional positionals, "
             "&str/&UnixStr/String/UnixString/integer/custom FromStr fields, required, optional and nested subcommands); "
             "per shape: random value assignments with boundary values rendered under all orders of their option/positional "
             "units when there are at most 5 (sampled orders beyond) and parsed back; 14 kinds of mutation of the rendered "
